@@ -1,8 +1,31 @@
-(* C11 GraphColoring: an episode lasts at most num_nodes steps (structural horizon), for every in-spec action sequence *)
-Require Import JV.Base.Prelude JV.Base.JaxIndex JV.Base.Codec JV.Base.TimeStep JV.Model.GraphColoring JV.Proofs.GraphColoring.
+(* C11 GraphColoring (no time limit; structural horizon num_nodes): from reset, under mask-respecting in-spec play an episode
+   has EXACTLY num_nodes steps (it ends iff num_nodes colours were played, never earlier); under ANY in-spec play it has at
+   most num_nodes steps and num_nodes in-spec colours always reach a LAST step.  In general, with k nodes coloured, at most
+   n - k steps remain. *)
+Require Import JV.Base.Prelude JV.Base.JaxIndex JV.Base.Codec JV.Base.TimeStep JV.Model.GraphColoring JV.Proofs.GraphColoring
+  JV.Proofs.GraphColoring_rules JV.Proofs.GraphColoring_episode JV.Proofs.GraphColoring_gen.
+Theorem C11_GraphColoring_exact_under_mask n adj0 acts :
+  0 < n -> graph_wf n adj0 ->
+  let s0 := fst (init n adj0) in
+  inspec n acts -> legal_run n s0 acts ->
+  zlen (run n s0 acts) = Z.min (zlen acts) n /\ (ended n s0 acts <-> n <= zlen acts).
+Proof. exact (C11_exact_from_reset n adj0 acts). Qed.
+Print Assumptions C11_GraphColoring_exact_under_mask.
+Theorem C11_GraphColoring_any_play n adj0 acts :
+  0 < n -> let s0 := fst (init n adj0) in
+  inspec n acts -> zlen (run n s0 acts) <= n /\ (n <= zlen acts -> ended n s0 acts).
+Proof. exact (C11_any_play_from_reset n adj0 acts). Qed.
+Print Assumptions C11_GraphColoring_any_play.
 Theorem C11_GraphColoring_horizon n acts k s :
   Seq n k s -> Forall (fun a => 0 <= a < n) acts -> Z.of_nat (length (run n s acts)) <= n - k.
 Proof. exact (C11_horizon n acts k s). Qed.
 Theorem C11_GraphColoring_init n adj0 : 0 < n -> Seq n 0 (fst (init n adj0)).
 Proof. exact (init_Seq n adj0). Qed.
 Print Assumptions C11_GraphColoring_horizon.
+Example C11_GraphColoring_nonvacuous :
+  let adj0 := gen_adj 3 [[true;true;true];[true;true;true];[false;true;true]] in
+  let s0 := fst (init 3 adj0) in
+  map (fun p => st (snd p)) (run 3 s0 [0; 1; 0; 2; 2]) = [MID; MID; LAST]       (* mask-respecting: exactly n *)
+  /\ map (fun p => st (snd p)) (run 3 s0 [0; 0; 1]) = [MID; LAST]               (* an illegal colour: earlier *)
+  /\ legal_run 3 s0 [0; 1; 0; 2; 2] /\ ~ legal_run 3 s0 [0; 0; 1].
+Proof. vm_compute. repeat split; try reflexivity; intuition (try discriminate; try lia). Qed.
